@@ -278,6 +278,8 @@ def natural_cases():
         add("devtty-no-ctty", f + "output = devtty", pre=["setsid"])
         add("config-unreadable", f + "output = file:{W}/log", pre=["confmode 000"], uid=U)
         add("stdin-closed-tty-sources", 'message_format = "%{tty} %{tty_uid} %{tty_username} %{ipaddr}"\noutput = file:{W}/log', pre=["stdin closed"])
+        # another process holds an advisory lock (flock) on the log file and keeps it
+        add("file-flocked-by-another-process", f + "output = file:{W}/lockedlog")
         # the log file has reached the caller's own file size limit (ulimit -f): the write raises SIGXFSZ, default = fatal
         add("file-at-callers-size-limit", f + "output = file:{W}/bigfile", pre=["fsizelimit 67108864"])
         # the caller's descriptor table is full (0, 1 and 2 free slots): every open/socket/fopen fails with EMFILE
@@ -312,7 +314,11 @@ def nat_script(c, B, s):
         with open(os.path.join(w, "bigfile"), "wb") as bf:
             bf.truncate(67108864)           # sparse, exactly at the limit the state sets
         os.chmod(os.path.join(w, "bigfile"), 0o666)
-        B.keep = (fs, snd, ls)
+        import fcntl
+        lk = open(os.path.join(w, "lockedlog"), "ab")
+        os.chmod(os.path.join(w, "lockedlog"), 0o666)
+        fcntl.flock(lk, fcntl.LOCK_EX)
+        B.keep = (fs, snd, ls, lk)
     s.fork(c["id"])
     s.raw("stdin pty")
     s.raw("envset " + Script.vec([b"HOME=/root", b"LOGNAME=lg", b"TZ=UTC"]))
